@@ -258,6 +258,22 @@ def sys_double_pendulum(spring=True):
     return system
 
 
+def sys_torsional_oscillator():
+    """axis-aligned bar on a revolute joint with a Spring whose reference is the DEFAULT one: the undeformed angle is exactly 0.0 (a value that is easily
+    mistaken for "not set" when the model is assembled again)"""
+    from cardillo import System
+    from cardillo.discrete import RigidBody
+    from cardillo.constraints import Revolute
+    from cardillo.force_laws import Spring
+
+    system = System()
+    rb = RigidBody(1.0, np.diag([0.01, 1 / 12, 1 / 12]), q0=np.array([0.5, 0, 0, 1.0, 0, 0, 0]), u0=np.array([0, 0.5 * 3.0, 0, 0, 0, 3.0]), name="bar")
+    j = Revolute(system.origin, rb, axis=2, r_OJ0=np.zeros(3), A_IJ0=np.eye(3), name="hinge")
+    system.add(rb, j, Spring(j, 6.0, compliance_form=False, name="spring"))
+    system.assemble()
+    return system
+
+
 def sys_spinning_bar(omega0=-40.0):
     """bar on a revolute joint with a soft rotational spring, spinning fast: the joint passes several quadrants per segment"""
     from cardillo import System
@@ -395,6 +411,7 @@ SYSTEMS = {
     "spinning_bar_forward": (sys_spinning_bar_forward, ["ScipyIVP", "Rattle"]),
     "spinning_bar_coarse_output": (sys_spinning_bar_coarse, ["ScipyIVP"]),
     "shaken_support": (sys_shaken_support, ["ScipyIVP", "Rattle", "Moreau"]),
+    "torsional_oscillator_default_reference": (sys_torsional_oscillator, ["ScipyIVP", "Rattle"]),
     "spherical_chain": (sys_spherical_chain, ["Rattle", "BackwardEuler", "Moreau", "ScipyIVP"]),
     "bouncing_ball": (sys_bouncing_ball, ["Moreau", "Rattle", "BackwardEuler", "DualStormerVerlet"]),
     "two_balls": (sys_two_balls, ["Moreau", "Rattle"]),
